@@ -33,6 +33,8 @@ def strat_conv(tier):
         "pts": st.lists(_point(), min_size=1, max_size=6),
         "exp": st.one_of(st.just(0), st.integers(-150, 150)),
         "scalar_z": st.booleans(),
+        # whole turns added to the azimuth of cylindrical / spherical inputs
+        "wrap": st.sampled_from([0, 0, -1, 1, 2, -2]),
         # integer-typed coordinate arrays (pixel indices) with a non-integer z, scalar or array
         "int_grid": st.one_of(st.none(), st.fixed_dictionaries({
             "dtype": st.sampled_from(["int64", "int64", "int32"]), "z": st.floats(-9.75, 9.75), "z_scalar": st.booleans()})),
@@ -144,6 +146,21 @@ def run_conv(case):
         if (np.max(np.abs(comp[0] - direct[0]) / scl) > 1e-12 or np.max(_angdiff(comp[1], direct[1])) > 1e-14
                 or np.max(np.abs(comp[2] - direct[2]) / scl) > 1e-12):
             return Outcome(failure("composition", "cart->sph->cyl != cart->cyl"))
+    # --- azimuths given outside [0, 2 pi) (negative, or beyond one turn) are the same points: the conversions between
+    # cylindrical and spherical coordinates must hand back an azimuth in [0, 2 pi] all the same
+    kw_ = case.get("wrap", 0)
+    if kw_ and not np.any(~np.isfinite(cyl)) and not np.any(~np.isfinite(sph)) and nrm.min() > 1e-140 and nrm.max() < 1e140:
+        labels.append("azimuth_outside_one_turn")
+        cyl_w = np.array([cyl[0], cyl[1] + TWO_PI * kw_, cyl[2]])
+        sph_w = np.array([sph[0], sph[1], sph[2] + TWO_PI * kw_])
+        for nm, got, ref, iphi in (("cylindrical->spherical", y2s(cyl_w), y2s(cyl), 2), ("spherical->cylindrical", s2y(sph_w), s2y(sph), 1)):
+            got = np.asarray(got, dtype=float); ref = np.asarray(ref, dtype=float)
+            if not (np.all(got[iphi] >= 0) and np.all(got[iphi] <= TWO_PI)):
+                return Outcome(failure("azimuth_range", "%s returns phi = %r for an input azimuth of %r" % (nm, got[iphi].tolist(), (cyl_w[1] if iphi == 2 else sph_w[2]).tolist()),
+                                       pair=nm, input_azimuth_outside_one_turn=True), True, labels)
+            offaxis = rho_ref > 1e-9 * nrm
+            if np.any(offaxis) and np.max(_angdiff(got[iphi][offaxis], ref[iphi][offaxis])) > 1e-13 * (1 + abs(kw_)):
+                return Outcome(failure("azimuth_wrap", "%s: azimuth of the same point given one or more turns away differs" % nm, pair=nm), True, labels)
     # --- scalar z broadcast for cylindrical
     if case["scalar_z"]:
         z0 = float(z[0])
